@@ -193,6 +193,24 @@ def run(ctx):
         elif [b["ID"] for b in parsed[2]] != [b["id"] for b in small.bars]:
             ctx.violation("the solution file of the second, smaller structure lists bars %s" % [b["ID"] for b in parsed[2]], {"big": big.text(), "small": small.text()})
             concrete += 1
+    # a solve that fails (an error nothing can meet; a mechanism): whatever .inkfemsol is at that path afterwards - none,
+    # or the one an earlier solve left - is a complete record, never a stub
+    if small is not None:
+        mech = small.copy()
+        for k in list(mech.nodes):
+            x, y, cst = mech.nodes[k]
+            mech.nodes[k] = (x, y, (False, cst[1], False) if any(cst) else cst)
+        for steps, start, what in (([["solve", "-e", "1e-300", "x.inkfem"]], small.text(), "solve -e 1e-300 in a clean directory"),
+                                   ([["solve", "x.inkfem"], ["solve", "-e", "1e-300", "x.inkfem"]], small.text(), "solve, then solve -e 1e-300"),
+                                   ([["solve", "x.inkfem"]], mech.text(), "solve of a mechanism in a clean directory"),
+                                   ([["solve", "x.inkfem"], ("write", "x.inkfem", mech.text()), ["solve", "x.inkfem"]], small.text(), "solve, then solve of a mechanism at the same path")):
+            logf, fsf = C12.cli_history(ctx, steps, {"x.inkfem": start}, name="c11f")
+            last = [e for e in logf if e[0] != "write"][-1]
+            left = fsf.get("x.inkfemsol")
+            if last[1] != 0 and left is not None and isinstance(parse_sol(left), str):
+                ctx.violation("%s: the command failed (exit %s) and the .inkfemsol at that path (%d bytes) is not a complete record: %s" % (what, last[1], len(left), parse_sol(left)),
+                              {"history": [" ".join(x) if isinstance(x, list) else "rewrite " + x[1] for x in steps], "text": start, "mechanism": mech.text()})
+                concrete += 1
     # a preprocessed file kept from another release: the solution file still starts with THIS program's version
     if small is not None:
         log2, fs2 = C12.cli_history(ctx, [["pre", "x.inkfem"]], {"x.inkfem": small.text()}, name="c11v")
